@@ -173,7 +173,7 @@ func checkTypedHelperSpec(c *Ctx, p *Prog, R *BusRoles, rule string, f *ssa.Func
 		c.Violate(rule, name+"/type-of-T", pos, "the helper does not start from reflect.TypeOf((*T)(nil)).Elem()", nil)
 		return
 	}
-	isT := func(v ssa.Value) bool { return sameValue(v, tval) }
+	var isT func(v ssa.Value) bool
 	// the TypeNamer interface type: the expression itself or a package variable initialised with it
 	isNamerType := func(v ssa.Value) bool {
 		if isTypeNamerIfaceType(v) {
@@ -199,14 +199,58 @@ func checkTypedHelperSpec(c *Ctx, p *Prog, R *BusRoles, rule string, f *ssa.Func
 	}
 	type shape struct{ iface, impl, ptr bool }
 	type walkState struct {
-		phis  map[*ssa.Phi]ssa.Value
-		cells map[*ssa.Alloc]ssa.Value
+		phis   map[*ssa.Phi]ssa.Value
+		cells  map[*ssa.Alloc]ssa.Value
+		params map[*ssa.Parameter]ssa.Value // parameters of interpreted helpers → the (resolved) argument
+		calls  map[*ssa.Call]ssa.Value      // interpreted helper calls → the value returned on this shape's path
+		sh     shape
+		depth  int
 	}
+	var cur *walkState
 	var evalCond func(v ssa.Value, sh shape, ws *walkState) (bool, bool)
-	resolve := func(v ssa.Value, ws *walkState) ssa.Value {
-		for i := 0; i < 8; i++ {
+	var interp func(fn *ssa.Function, ws *walkState) (ssa.Value, string)
+	var resolve func(v ssa.Value, ws *walkState) ssa.Value
+	resolve = func(v ssa.Value, ws *walkState) ssa.Value {
+		for i := 0; i < 16; i++ {
 			v = stripConv(v)
 			switch x := v.(type) {
+			case *ssa.Parameter:
+				if a, ok := ws.params[x]; ok {
+					v = a
+					continue
+				}
+				return v
+			case *ssa.Call:
+				// a helper of the package is interpreted on the same shape: its parameters
+				// stand for the arguments, its value is what the path taken returns
+				sc := x.Common().StaticCallee()
+				if sc == nil || sc == R.NameFn || PkgOf(sc) != PkgBus || len(sc.Blocks) == 0 || sc.Signature.Results().Len() != 1 || len(sc.Params) != len(x.Common().Args) {
+					return v
+				}
+				if rv, ok := ws.calls[x]; ok {
+					if rv == nil {
+						return v
+					}
+					v = rv
+					continue
+				}
+				if ws.depth > 3 {
+					return v
+				}
+				for i, prm := range sc.Params {
+					ws.params[prm] = resolve(x.Common().Args[i], ws)
+				}
+				ws.depth++
+				rv, status := interp(sc, ws)
+				ws.depth--
+				if status != "" {
+					ws.calls[x] = nil
+					return v
+				}
+				rv = resolve(rv, ws)
+				ws.calls[x] = rv
+				v = rv
+				continue
 			case *ssa.Phi:
 				if sel, ok := ws.phis[x]; ok {
 					v = sel
@@ -228,6 +272,12 @@ func checkTypedHelperSpec(c *Ctx, p *Prog, R *BusRoles, rule string, f *ssa.Func
 			}
 		}
 		return v
+	}
+	isT = func(v ssa.Value) bool {
+		if cur != nil {
+			v = resolve(v, cur)
+		}
+		return sameValue(v, tval)
 	}
 	evalCond = func(v ssa.Value, sh shape, ws *walkState) (bool, bool) {
 		v = resolve(v, ws)
@@ -311,10 +361,10 @@ func checkTypedHelperSpec(c *Ctx, p *Prog, R *BusRoles, rule string, f *ssa.Func
 		}
 		return "EventType(other)"
 	}
-	run := func(sh shape) string {
-		ws := &walkState{phis: map[*ssa.Phi]ssa.Value{}, cells: map[*ssa.Alloc]ssa.Value{}}
+	interp = func(fn *ssa.Function, ws *walkState) (ssa.Value, string) {
+		sh := ws.sh
 		var prev *ssa.BasicBlock
-		blk := f.Blocks[0]
+		blk := fn.Blocks[0]
 		for step := 0; step < 200; step++ {
 			// phis of this block take the value of the edge we came in by
 			for _, in := range blk.Instrs {
@@ -339,7 +389,7 @@ func checkTypedHelperSpec(c *Ctx, p *Prog, R *BusRoles, rule string, f *ssa.Func
 			case *ssa.If:
 				v, known := evalCond(t.Cond, sh, ws)
 				if !known {
-					return "undecided:" + p.Pos(t.Cond.Pos())
+					return nil, "undecided:" + p.Pos(t.Cond.Pos())
 				}
 				prev = blk
 				if v {
@@ -351,14 +401,24 @@ func checkTypedHelperSpec(c *Ctx, p *Prog, R *BusRoles, rule string, f *ssa.Func
 				prev, blk = blk, blk.Succs[0]
 			case *ssa.Return:
 				if len(t.Results) != 1 {
-					return "other"
+					return nil, "other"
 				}
-				return classify(t.Results[0], ws)
+				return t.Results[0], ""
 			default:
-				return "other"
+				return nil, "other"
 			}
 		}
-		return "undecided:loop"
+		return nil, "undecided:loop"
+	}
+	run := func(sh shape) string {
+		ws := &walkState{phis: map[*ssa.Phi]ssa.Value{}, cells: map[*ssa.Alloc]ssa.Value{}, params: map[*ssa.Parameter]ssa.Value{}, calls: map[*ssa.Call]ssa.Value{}, sh: sh}
+		cur = ws
+		defer func() { cur = nil }()
+		rv, status := interp(f, ws)
+		if status != "" {
+			return status
+		}
+		return classify(rv, ws)
 	}
 	good := true
 	for _, tc := range []struct {
